@@ -39,7 +39,7 @@ class ECell:
         self.curve = curve or rng.choice(g.ECDH_CURVES)
         self.form = form or rng.choice(FORMS)
         self.plain = plain or rng.choice(PLAIN_NAMES)
-        self.aad = (rng.random() < 0.4 if aad is None else aad) and self.form != "compact"
+        self.aad = (rng.choice([False, False, True, True, "empty"]) if aad is None else aad) if self.form != "compact" else False
         self.apu = rng.random() < 0.4 if apu is None else apu
         self.placement = placement or rng.choice(["protected", "unprotected", "recipient"])  # where "alg" of a single recipient goes
         if self.form == "compact":
@@ -80,6 +80,8 @@ def produce(cell: ECell, rng):
         for r in recs:
             r["sender"] = recs[0]["sender"]
     protected = {"enc": cell.enc, "typ": "x+jwe"}
+    if rng.random() < 0.3:
+        protected["cty"] = rng.choice(["é世界 \U0001F600", "", "a/b+c"])
     if cell.zip:
         protected["zip"] = "DEF"
     unprotected = None
@@ -112,7 +114,7 @@ def produce(cell: ECell, rng):
                 if i == 0:
                     h.update(apx)
                 rec_headers.append(h)
-        aad = b"additional \x00 data" if cell.aad else None
+        aad = (b"additional \x00 data" if cell.aad != "empty" else b"") if cell.aad else None
         if cell.zip_unprotected:
             # "zip" outside the protected header is not the integrity-protected switch: neither side may act on it
             protected.pop("zip", None)
